@@ -391,6 +391,8 @@ class Empirical1D(Tabular1D):
             if n_neg > 0:
                 old_x = x[i]
                 old_y = y[i]
+                # np.asarray does not copy: zero a copy, not the caller's array
+                y = y.copy()
                 y[i] = 0
 
         if old_y is not None:
